@@ -1,0 +1,49 @@
+//go:build verif
+
+package metric
+
+import "sort"
+
+// Hooks for the verification harness in /verif (build tag "verif"). Add-only: nothing in the
+// library calls these.
+
+func verifKeys(m map[string]bool) []string {
+	r := []string{}
+	for k, v := range m {
+		if v {
+			r = append(r, k)
+		}
+	}
+	sort.Strings(r)
+	return r
+}
+
+// VerifRoundUp exposes roundUp.
+func VerifRoundUp(x float64) float64 { return roundUp(x) }
+
+// VerifSeverity exposes severity.
+func VerifSeverity(x float64) Severity { return severity(x) }
+
+// VerifNames returns the sorted names recorded by decodeOne (nil for a nil receiver).
+func (bm *Base) VerifNames() []string {
+	if bm == nil {
+		return nil
+	}
+	return verifKeys(bm.names)
+}
+
+// VerifNames returns the sorted names recorded by decodeOne (nil for a nil receiver).
+func (tm *Temporal) VerifNames() []string {
+	if tm == nil {
+		return nil
+	}
+	return verifKeys(tm.names)
+}
+
+// VerifNames returns the sorted names recorded by decodeOne (nil for a nil receiver).
+func (em *Environmental) VerifNames() []string {
+	if em == nil {
+		return nil
+	}
+	return verifKeys(em.names)
+}
